@@ -49,20 +49,52 @@ impl<S: io::AsyncRead + io::AsyncWrite + Unpin> io::AsyncWrite for NoiseStream<S
     }
 }
 
-/// The TCP-based noise stream the handshakes are written against.
-pub type TcpNoise = NoiseStream<MeteredStream>;
+/// The TCP-based noise stream the handshakes are written against (opaque: `MeteredStream` is crate-private).
+pub struct TcpNoise(pub(crate) noise::Stream<MeteredStream>);
 
-/// Loopback TCP pair (outbound, inbound).
-pub async fn tcp_pipe(ctx: &ctx::Ctx) -> (MeteredStream, MeteredStream) {
+impl TcpNoise {
+    /// Session id (hash of the handshake transcript).
+    pub fn id(&self) -> Vec<u8> {
+        use zksync_consensus_crypto::ByteFmt as _;
+        self.0.id().encode()
+    }
+}
+
+impl io::AsyncRead for TcpNoise {
+    fn poll_read(mut self: Pin<&mut Self>, cx: &mut Context<'_>, buf: &mut io::ReadBuf<'_>) -> Poll<std::io::Result<()>> {
+        Pin::new(&mut self.0).poll_read(cx, buf)
+    }
+}
+
+impl io::AsyncWrite for TcpNoise {
+    fn poll_write(mut self: Pin<&mut Self>, cx: &mut Context<'_>, buf: &[u8]) -> Poll<std::io::Result<usize>> {
+        Pin::new(&mut self.0).poll_write(cx, buf)
+    }
+    fn poll_flush(mut self: Pin<&mut Self>, cx: &mut Context<'_>) -> Poll<std::io::Result<()>> {
+        Pin::new(&mut self.0).poll_flush(cx)
+    }
+    fn poll_shutdown(mut self: Pin<&mut Self>, cx: &mut Context<'_>) -> Poll<std::io::Result<()>> {
+        Pin::new(&mut self.0).poll_shutdown(cx)
+    }
+}
+
+/// Loopback TCP connection with a completed noise handshake: (client end, server end) of ONE session.
+pub async fn tcp_noise_pair(ctx: &ctx::Ctx) -> ctx::Result<(TcpNoise, TcpNoise)> {
     let addr = zksync_concurrency::net::tcp::testonly::reserve_listener();
-    zksync_concurrency::scope::run!(ctx, |ctx, s| async {
+    let (s1, s2) = zksync_concurrency::scope::run!(ctx, |ctx, s| async {
         let mut listener = addr.bind(false).map_err(|e| ctx::Error::Internal(e.into()))?;
         let s1 = s.spawn(async { MeteredStream::connect(ctx, *addr).await });
         let s2 = MeteredStream::accept(ctx, &mut listener).await?;
         Ok((s1.join(ctx).await?, s2))
     })
-    .await
-    .unwrap()
+    .await?;
+    let (c, s) = zksync_concurrency::scope::run!(ctx, |ctx, sc| async {
+        let c = sc.spawn(async { noise::Stream::client_handshake(ctx, s1).await });
+        let s = noise::Stream::server_handshake(ctx, s2).await?;
+        Ok((c.join(ctx).await?, s))
+    })
+    .await?;
+    Ok((TcpNoise(c), TcpNoise(s)))
 }
 
 /// Raw `len ++ bytes` frame, as used by the handshakes and RPCs.
